@@ -80,7 +80,7 @@ template <class Q> long do_op(Q& q, int kind, long val) {
 struct Outcome {
     std::vector<Op> ops;            // everything, including helper and drain operations of the coordinator
     std::vector<long> drained;
-    int helper_ops = 0;
+    int helper_ops = 0; long helper_not_sure = 0;
     bool reported = false;          // the violation was already handed to Result (the scenario could still wedge afterwards)
     long try_push_while_pop_blocked = 0, try_push_full_while_pop_blocked = 0;
     std::string fail_key, fail_detail;
@@ -113,6 +113,7 @@ struct Engine {
         if (p.arm_alloc >= 0) { alloc_inj().disarm(); alloc_inj().arm(0, p.arm_alloc); }
         std::atomic<int> nblk_pop{0}, nblk_push{0};
         std::atomic<long> opcount{0}, tp_blocked{0};
+        std::atomic<char> thread_done[Pool::kMax]; for (auto& d : thread_done) d.store(0);
         pool.start(n, [&](int t) {
             Log& lg = logs[t];
             for (const PlanOp& o : p.ops[t]) {
@@ -132,6 +133,7 @@ struct Engine {
                 opcount.fetch_add(1, std::memory_order_relaxed);
                 progress();
             }
+            thread_done[t].store(1, std::memory_order_release);
         });
         // helper loop
         long helper_val = 700000; int sp = 0; long last_ops = -1; int stable = 0; bool helper_broken = false;
@@ -143,8 +145,21 @@ struct Engine {
             long oc = opcount.load(std::memory_order_relaxed);
             if (bp + bu + fin < n || (bp == 0 && bu == 0)) { stable = 0; last_ops = oc; continue; }   // somebody is still running non-blocking code
             if (oc != last_ops) { last_ops = oc; stable = 0; continue; }
-            if (++stable < 40) continue;                       // same picture for a while: everybody left is inside a blocking call
+            if (++stable < 8) continue;                        // same picture for a few polls: everybody left is inside a blocking call ...
             stable = 0;
+            // ... and really blocked there: flagged asleep by the library's own sleep hooks, and (OS view) sleeping without having been
+            // scheduled between two samples. "Nothing moved for a while" is not enough: on a slow or loaded machine a thread inside a
+            // blocking call may simply not have run yet, and then the content the helping operation is judged against is not known.
+            {
+                std::vector<int> tids; bool flagged = true;
+                for (int t = 0; t < n; t++) if (!thread_done[t].load(std::memory_order_acquire)) {
+                    HookThread* h = pool.hts[t].load(std::memory_order_acquire);
+                    if (!h || h->sleeping_on.load(std::memory_order_relaxed) == nullptr) { flagged = false; break; }
+                    tids.push_back(h->tid);
+                }
+                if (!flagged || tids.empty() || !threads_asleep_stable(tids)) { out.helper_not_sure++; continue; }
+                if (opcount.load(std::memory_order_relaxed) != oc) continue;
+            }
             long inside = hc.pushed.load(std::memory_order_relaxed) - hc.popped.load(std::memory_order_relaxed);
             if (out.helper_ops >= p.max_help) continue;                // cannot happen with a working queue (every help releases a call); the watchdog decides
             // The helping operation itself is judged: everybody else is finished or blocked, so the abstract content is known.
